@@ -113,7 +113,7 @@ type c28Scenario struct {
 
 // runC28 enumerates every crash point of one generated scenario, then samples transient faults.
 func runC28(x *simkit.Exec) {
-	kinds := []string{"upload", "shipper", "replicate", "delete"}
+	kinds := []string{"upload", "shipper", "replicate", "delete", "replicate-vs-delete"}
 	sc := &c28Scenario{kind: kinds[x.Draw("kind", len(kinds))]}
 	nblocks := 1
 	if sc.kind == "shipper" || sc.kind == "replicate" {
@@ -138,6 +138,13 @@ func runC28(x *simkit.Exec) {
 	}
 	x.Sample = map[string]any{"scenario": sc.kind, "blocks": nblocks, "segments": sc.blocks[0].Segments, "upload_concurrency": sc.concurrency}
 
+	if sc.kind == "replicate-vs-delete" {
+		x.Nontrivial = true
+		for i := 0; i < 6 && !x.Failed(); i++ {
+			sc.executeRace(x, fmt.Sprintf("race%d", i))
+		}
+		return
+	}
 	// reference execution: count operations
 	n := sc.execute(x, "ref", 0, false)
 	if x.Failed() || n == 0 {
@@ -301,6 +308,56 @@ func (sc *c28Scenario) execute(x *simkit.Exec, salt string, crashAt int, faults 
 		}
 	})
 	return ops
+}
+
+// executeRace replicates a block while the origin's cleaner deletes that block (the replicator copies
+// blocks marked for deletion unless told otherwise, and the compactor of the origin bucket deletes them
+// when the delay is over). Whatever the interleaving, what becomes visible in the target must be complete;
+// the replication itself may fail.
+func (sc *c28Scenario) executeRace(x *simkit.Exec, salt string) {
+	x.Bubble(salt, func(s *simkit.Sim) {
+		target := simbucket.New("target")
+		target.LexOrder = sc.lexOrder
+		target.Attach(s)
+		origin := simbucket.New("origin")
+		origin.LexOrder = sc.lexOrder
+		origin.Attach(s)
+		mon := &visibilityMonitor{b: target, deleting: map[string]bool{}}
+		target.AfterOp = func(op simbucket.Op) {
+			if sig, det := mon.check(); sig != "" {
+				s.Violate("visible-block-complete", sc.kind+":"+sig, "after %s: %s\norigin bucket operations:\n%starget bucket operations:\n%s", op, det,
+					simbucket.FormatLog(origin.Log(), 30), simbucket.FormatLog(target.Log(), 25))
+			}
+		}
+		ctx, cancel := context.WithCancel(context.Background())
+		defer cancel()
+		sp := sc.blocks[0]
+		putBlock(origin.Inner, sc.srcDir, sp, true)
+		mark, _ := json.Marshal(metadata.DeletionMark{ID: sp.ID, DeletionTime: 1, Version: metadata.DeletionMarkVersion1})
+		_ = origin.Inner.Upload(ctx, path.Join(sp.ID.String(), metadata.DeletionMarkFilename), strings.NewReader(string(mark)))
+		th, oh, ch := target.Handle("replicator"), origin.Handle("replicator"), origin.Handle("cleaner")
+		var repErr, delErr error
+		s.Go("replicator", func() {
+			repErr = replicate.VerifReplicateBlock(ctx, oh, th, sp.ID)
+		})
+		s.Go("cleaner", func() {
+			delErr = block.Delete(ctx, log.NewNopLogger(), ch, sp.ID)
+		})
+		s.Loop()
+		if s.Stuck() {
+			x.Troublef("c28 %s/%s: scheduler stuck, parked=%v", sc.kind, salt, s.ParkedIDs())
+			return
+		}
+		if delErr != nil {
+			x.Troublef("c28 %s/%s: deletion in the origin failed without any fault: %v", sc.kind, salt, delErr)
+			return
+		}
+		if repErr != nil {
+			s.Probe("c28.replication_failed_because_origin_vanished")
+		} else if _, ok := target.Inner.Objects()[sp.ID.String()+"/"+block.MetaFilename]; ok {
+			s.Probe("c28.replicated_despite_concurrent_deletion")
+		}
+	})
 }
 
 func putBlock(b *objstore.InMemBucket, srcDir string, sp fixtures.SynthSpec, withFiles bool) {
